@@ -3,7 +3,7 @@
    uni (Unicode digit/space map of int()) are universally quantified oracles. *)
 From Coq Require Import List NArith ZArith Bool.
 Import ListNotations.
-Require Import Verif.Lib.Wire Verif.Lib.Text Verif.Lib.Utf8 Verif.Lib.C09Base Verif.Gen.Facts_C09 Verif.Model.C09 Verif.Proofs.C09 Verif.Proofs.C09_rt Verif.Proofs.C09_more Verif.Proofs.C09_gen Verif.Proofs.C09_w5.
+Require Import Verif.Lib.Wire Verif.Lib.Text Verif.Lib.Utf8 Verif.Lib.C09Base Verif.Gen.Facts_C09 Verif.Model.C09 Verif.Proofs.C09 Verif.Proofs.C09_rt Verif.Proofs.C09_more Verif.Proofs.C09_gen Verif.Proofs.C09_w5 Verif.Lib.Percent Verif.Lib.C09Scalar Verif.Proofs.C09_w6 Verif.Proofs.C09_cb.
 
 (* "no cookie at all is accepted unless its digest field is exactly the keyed digest of its
    other fields": for EVERY cookie text, configuration, address and clock *)
@@ -399,3 +399,96 @@ Theorem C09_policy_total : forall H dsz uni c r st ck0,
   gen_policy_userid H dsz uni c r st = (st, UNone).
 Proof. exact gen_policy_total. Qed.
 Print Assumptions C09_policy_total.
+
+(* ======================================================================================================
+   Sixth round.  (1) The identity of EVERY accepted cookie -- also one signed through AuthTicket directly with foreign
+   contents -- is well formed (text of Unicode scalar values, bytes below 256): the decoders cannot produce anything else. *)
+Theorem C09_accepted_identity_wellformed : forall H dsz uni c r ck0 ts u tk ud,
+  forallb valid_scalar ck0 = true -> cookie r = Some ck0 ->
+  identify_pre H dsz uni c r = ISome ts u tk ud -> uval_ok u.
+Proof. exact accepted_identity_wellformed. Qed.
+Print Assumptions C09_accepted_identity_wellformed.
+
+(* hence "one fresh, VALID ticket" with no premise on the identity (the fifth round's statement carried uval_ok u) *)
+Theorem C09_reissued_ticket_valid_any : forall H dsz uni c r ck0 r2 hs k v,
+  (forall a x, length (H a x) = (dsz a * digest_mult)%nat) ->
+  (forall a x, exists c r, H a x = c :: r /\ c <> strip_ch) ->
+  forallb valid_scalar ck0 = true -> cookie r = Some ck0 ->
+  spec_reissue_ticket H dsz uni c r = Some hs -> In k hs -> ck_value k = Some v ->
+  (0 <= now (later r) < 4294967296)%Z ->
+  cookie r2 = Some v -> eff_ip c r2 = eff_ip c r ->
+  exists ts u tk ud,
+    identify_pre H dsz uni c r = ISome ts u tk ud /\
+    identify_pre H dsz uni c r2 =
+    match spec_issued_identity c (Z.to_N (now (later r))) u (shown_tokens (filter nonempty tk)) (now2 r2) with
+    | Some (ts', u', tk') => ISome ts' u' tk' (userid_typename ++ tag_of u)
+    | None => INone
+    end.
+Proof. exact reissued_ticket_valid_any. Qed.
+Print Assumptions C09_reissued_ticket_valid_any.
+
+(* (2) urllib's unquote(quote(s)) = s for EVERY str of scalar values, and with it the ticket round trip for every user-id
+   text (AuthTicket used directly with a non-ASCII user id), not only for the ASCII the three encoders emit *)
+Theorem C09_unquote_quote_scalar : forall safe s,
+  is_ascii safe = true -> is_safe safe 37 = false -> forallb valid_scalar s = true ->
+  unquote_str (quote_str safe s) = s.
+Proof. exact unquote_quote_str_scalar. Qed.
+Print Assumptions C09_unquote_quote_scalar.
+
+Theorem C09_ticket_roundtrip_scalar : forall H dsz uni alg ip t sec enc toks ud,
+  (forall a x, length (H a x) = (dsz a * digest_mult)%nat) ->
+  (forall a x, exists c r, H a x = c :: r /\ c <> strip_ch) ->
+  (t < 4294967296)%N -> forallb valid_scalar enc = true ->
+  Forall (fun tk => valid_token tk = true) toks ->
+  ud <> [] -> ~ In bang ud -> last ud 0%N <> strip_ch ->
+  parse_ticket H dsz uni sec (cookie_value H alg ip t sec enc toks ud) ip alg
+  = POk (Z.of_N t) enc (shown_tokens toks) ud.
+Proof. exact ticket_roundtrip_scalar. Qed.
+Print Assumptions C09_ticket_roundtrip_scalar.
+
+(* (3) over the REGENERATED VALID_TOKEN classes: no token remember() accepts contains the separator ',' or '!' (or is
+   empty), so the joined token field splits back into exactly the issued tokens and cannot end the field early *)
+Theorem C09_valid_token_no_separator : forall t,
+  valid_token t = true -> ~ In comma t /\ ~ In bang t /\ t <> [].
+Proof. exact valid_token_no_separator. Qed.
+Print Assumptions C09_valid_token_no_separator.
+
+Theorem C09_tokens_split_back : forall toks,
+  toks <> [] -> Forall (fun tk => valid_token tk = true) toks ->
+  Text.split_on comma (Text.join [comma] toks) = toks /\ ~ In bang (Text.join [comma] toks).
+Proof. exact tokens_split_back. Qed.
+Print Assumptions C09_tokens_split_back.
+
+(* (4) forget() / remember() issued from APPLICATION response callbacks.  Pyramid runs response callbacks in registration
+   order, so that is the order of the Set-Cookie headers.  run_cbs is _process_response_callbacks over identify's reissue
+   callbacks (CbReissue) and application callbacks (CbApp); run_ops3 is a request with operations and registrations. *)
+Theorem C09_generated_callbacks_is_model : forall H dsz uni pol c0 r0 c1 r1 ops st cbs,
+  gen_run_ops3 H dsz uni pol c0 r0 c1 r1 st cbs ops = run_ops3 H dsz uni c0 r0 c1 r1 st cbs ops
+  /\ gen_run_cbs H dsz uni pol c0 r0 st cbs = run_cbs H dsz uni c0 r0 st cbs.
+Proof. exact (fun H dsz uni pol c0 r0 c1 r1 ops st cbs =>
+  conj (gen_run_ops3_is_model H dsz uni pol c0 r0 c1 r1 ops st cbs) (gen_run_cbs_is_model H dsz uni pol c0 r0 cbs st)). Qed.
+Print Assumptions C09_generated_callbacks_is_model.
+
+(* "until forget": when an application callback forgets the user (or re-remembers one and the call goes through), its
+   headers are the LAST ones on the response -- whatever ran before, whatever reissue callbacks follow, in any request state *)
+Theorem C09_explicit_callback_is_final : forall H dsz uni c r o pre post st,
+  is_explicit H c r (op_of o) = true -> forallb is_reissue_cb post = true ->
+  run_cbs H dsz uni c r st (pre ++ CbApp o :: post)
+  = run_cbs H dsz uni c r st pre ++ hdrs_of (snd (step H dsz uni c r st0 (op_of o))).
+Proof. exact explicit_callback_is_final. Qed.
+Print Assumptions C09_explicit_callback_is_final.
+
+Theorem C09_forget_callback_first_suppresses_reissue : forall H dsz uni c r st post,
+  forallb is_reissue_cb post = true ->
+  run_cbs H dsz uni c r st (CbApp GForget :: post) = get_cookies c r None None.
+Proof. exact forget_callback_first_suppresses_reissue. Qed.
+Print Assumptions C09_forget_callback_first_suppresses_reissue.
+
+(* without application callbacks the new runner gives the response of C09_reissue_once *)
+Theorem C09_response_no_registration : forall H dsz uni c r ops,
+  let gops := map (fun o => (false, XOp (match o with OIdentify => GIdentify
+                                         | ORemember u ma toks => GRemember (UKnown u) ma toks | OForget => GForget end))) ops in
+  let '(st, cbs, _) := run_ops3 H dsz uni c r c r st0 [] gops in
+  run_cbs H dsz uni c r st cbs = spec_response H dsz uni c r ops.
+Proof. exact response_no_registration. Qed.
+Print Assumptions C09_response_no_registration.
